@@ -24,14 +24,24 @@ reference source), the signature of reader.read_tex, rebinding of any name
 with a module-level meaning.
 
 The output depends on the abstract syntax only: comments, docstrings, layout,
-type annotations and the names of local variables and parameters do not
-change it (locals are numbered: parameters first, then in order of first
-binding).
+type annotations (removed from every file before anything is compared or
+translated) and the names of local variables and parameters do not change it.
+Before a function is translated it is brought into a normal form (section
+"helper functions" below): calls of small module-level helpers are inlined
+(a pure wrapper `return E`; a search loop `for ..: if ..: return E` /
+`return D`), module-level str / int literal constants are inlined, an `else`
+after a branch that always returns / breaks / continues is flattened.
+Locals are numbered: parameters first, then in order of first binding; in a
+function without loops a local that is bound for the first time takes the
+lowest slot whose previous holder is not referenced any more (so one variable
+per pipeline stage and one variable rebound at every stage are the same
+program), and `x = E; return x, ...` is `return E, ...`.
 
 Usage: gen_glue.py <out.v>    exit 0 = written (only if content changed)
                               exit 2 = translation failed (message on stderr)
 """
 import ast
+import copy
 import os
 import sys
 
@@ -212,10 +222,32 @@ def dump_nodoc(fn):
     return ast.dump(fn)
 
 
+def strip_annotations(tree):
+    """Annotations of parameters, return values and assignments do not take part
+    in running a function: `def f(x: T = d) -> R` is `def f(x=d)`, `x: T = e`
+    is `x = e`.  (A bare `x: T` is left alone and refused later.)"""
+    class T(ast.NodeTransformer):
+        def visit_FunctionDef(self, n):
+            self.generic_visit(n)
+            n.returns = None
+            a = n.args
+            for x in getattr(a, 'posonlyargs', []) + a.args + a.kwonlyargs + [a.vararg, a.kwarg]:
+                if x is not None:
+                    x.annotation = None
+            return n
+
+        def visit_AnnAssign(self, n):
+            self.generic_visit(n)
+            if n.value is not None and isinstance(n.target, (ast.Name, ast.Attribute)):
+                return ast.copy_location(ast.Assign(targets=[n.target], value=n.value), n)
+            return n
+    return ast.fix_missing_locations(T().visit(tree))
+
+
 def parse_file(name):
     path = os.path.join(REPO, 'TexSoup', name)
     with open(path) as f:
-        return ast.parse(f.read())
+        return strip_annotations(ast.parse(f.read()))
 
 
 # ------------------------------------------------------------ module bindings
@@ -432,14 +464,89 @@ class Fun(object):
             if d is not None:
                 seen_default = True
             need(not (seen_default and d is None), '%s: parameter order' % fn.name)
-        # number the other locals in order of first binding
-        for n in self.stores(fn.body):
-            if n not in self.locals:
-                need(n != self.text, '%s: the buffer parameter %s is rebound' % (fn.name, n))
-                self.locals[n] = len(self.locals)
+        self.body = self.inline_return_temp(strip_doc(fn.body))
+        has_loop = any(isinstance(n, (ast.While, ast.For)) for st in self.body for n in ast.walk(st))
+        if has_loop:
+            # number the other locals in order of first binding
+            for n in self.stores(self.body):
+                if n not in self.locals:
+                    need(n != self.text, '%s: the buffer parameter %s is rebound' % (fn.name, n))
+                    self.locals[n] = len(self.locals)
+            self.nlocals = len(self.locals)
+        else:
+            self.number_coalesced()
         for n in self.locals:
             need(n not in globals_ok and n not in BUILTINS,
                  '%s: local %s shadows a name the translation relies on' % (fn.name, n))
+
+    def inline_return_temp(self, body):
+        """...; x = E; return x, A, ...   ==   ...; return E, A, ...
+        when x is bound here only and read there only: E is evaluated at the
+        same point (x is the first thing the return statement evaluates)."""
+        def leftmost(r):
+            while isinstance(r, ast.Tuple) and r.elts:
+                r = r.elts[0]
+            return r if isinstance(r, ast.Name) else None
+        body = list(body)
+        while len(body) >= 2 and isinstance(body[-1], ast.Return) and body[-1].value is not None \
+                and isinstance(body[-2], ast.Assign) and len(body[-2].targets) == 1 \
+                and isinstance(body[-2].targets[0], ast.Name):
+            x = body[-2].targets[0].id
+            lm = leftmost(body[-1].value)
+            occ = [n for st in body for n in ast.walk(st) if isinstance(n, ast.Name) and n.id == x]
+            if lm is None or lm.id != x or x in self.sig.names or len(occ) != 2:
+                break
+            val = body[-2].value
+
+            class T(ast.NodeTransformer):
+                def visit_Name(self, n):
+                    return val if n is lm else n
+            body = body[:-2] + [ast.Return(value=T().visit(body[-1].value))]
+        return body
+
+    def number_coalesced(self):
+        """Numbering for a function without loops.  Statements are taken in textual
+        order (= execution order along every path).  A local whose first binding
+        is a top-level statement i of the body, and that nothing reads at or
+        before i, takes the lowest slot (after the parameters) whose holder is
+        not mentioned after i and is not itself bound by statement i (it may
+        be read by it: the right-hand side is evaluated before the target is
+        bound).  From i on that local is definitely bound, so every later read
+        of the slot is a read of it.  Any other local gets a slot of its own."""
+        seq = []
+
+        def names(node, ctx):
+            return [n.id for n in ast.walk(node) if isinstance(n, ast.Name) and isinstance(n.ctx, ctx)]
+
+        def walk(stmts, depth):
+            for s in stmts:
+                if isinstance(s, ast.If):
+                    seq.append((names(s.test, ast.Load), [], depth))
+                    walk(s.body, depth + 1)
+                    walk(s.orelse, depth + 1)
+                else:
+                    seq.append((names(s, ast.Load), self.stores([s]), depth))
+        walk(self.body, 0)
+        last, first_load = {}, {}
+        for i, (loads, stored, _) in enumerate(seq):
+            for n in loads:
+                first_load.setdefault(n, i)
+            for n in loads + stored:
+                last[n] = i
+        holder = {}
+        for i, (loads, stored, depth) in enumerate(seq):
+            for n in stored:
+                if n in self.locals:
+                    continue
+                need(n != self.text, '%s: the buffer parameter %s is rebound' % (self.fn.name, n))
+                sl = self.nparams
+                share = depth == 0 and first_load.get(n, i + 1) > i
+                while sl in holder and not (share and (last[holder[sl]] < i or (
+                        last[holder[sl]] == i and holder[sl] not in stored))):
+                    sl += 1
+                self.locals[n] = sl
+                holder[sl] = n
+        self.nlocals = self.nparams + len(holder)
 
     def stores(self, body):
         """names bound in `body`, in source order (pre-order, targets before bodies)"""
@@ -502,6 +609,8 @@ class Fun(object):
     def ex(self, n):
         if is_none(n):
             return 'GNone'
+        if is_const(n, bool):
+            return 'GBool %s' % ('true' if n.value else 'false')
         if is_const(n, int):
             return 'GInt %s' % coq_z(n.value)
         if is_const(n, str):
@@ -558,6 +667,8 @@ class Fun(object):
             self.err(n, 'unsupported comparison')
         if isinstance(n, ast.Call):
             return self.call_ex(n)
+        if isinstance(n, ast.IfExp):
+            return 'GIfExp (%s) (%s) (%s)' % (self.ex(n.test), self.ex(n.body), self.ex(n.orelse))
         self.err(n, 'unsupported expression')
 
     def call_ex(self, n):
@@ -570,6 +681,9 @@ class Fun(object):
                 if len(n.args) == 1 and is_const(n.args[0], int) and n.args[0].value >= 1:
                     return 'GHasNext %d' % n.args[0].value
             self.err(n, 'unsupported use of the buffer')
+        # x.isspace()
+        if isinstance(f, ast.Attribute) and f.attr == 'isspace' and not n.args and not n.keywords:
+            return 'GIsSpace (%s)' % self.ex(f.value)
         # CATEGORY_CODES.items()
         if isinstance(f, ast.Attribute) and f.attr == 'items' and self.glob(f.value, 'CATEGORY_CODES'):
             need(not n.args and not n.keywords, '%s: items() with arguments' % self.fn.name)
@@ -704,7 +818,7 @@ class Fun(object):
         return [self.stmt(s) for s in body]
 
     def translate(self):
-        body = strip_doc(self.fn.body)
+        body = self.body
         need(body, '%s: empty body' % self.fn.name)
         # yield only as a statement
         ys = [n for n in ast.walk(self.fn) if isinstance(n, ast.Yield)]
@@ -745,6 +859,306 @@ def pp_stmt(it, ind):
     if it[0] == 'for':
         return [pad + 'SFor %s (%s)' % (it[1], it[2])] + pp_block(it[3], ind + 2)
     raise TranslationError('internal: %r' % (it,))
+
+
+
+# ------------------------------------------------------------ helper functions
+# A call of a small module-level helper inside an expression is replaced by the
+# helper's meaning, for two shapes of helper:
+#   def h(p...): return E                      ->  E[p := argument]
+#   def h(p...):                               ->  r = D
+#       for T in I:                                for T in I:
+#           if C: return E                             if C:
+#       return D          (D a constant)                   r = E; break
+#                                                  ... r ...
+# The arguments must be names or constants (no evaluation to order), the helper
+# must not rebind its parameters, everything the statement evaluates before the
+# call must be a name or a constant (so running the loop first changes
+# nothing), and the helper's other locals are renamed apart.
+
+def pure_leaf(n):
+    return (isinstance(n, (ast.Name, ast.Constant))
+            or (isinstance(n, ast.Attribute) and isinstance(n.value, ast.Name) and n.value.id in ('CC', 'TC')))
+
+
+def eval_order(e, out):
+    """sub-expressions of e in the order Python evaluates them (only the node
+    kinds that can sit around a helper call; anything else: one opaque node)"""
+    if isinstance(e, ast.Tuple):
+        for x in e.elts:
+            eval_order(x, out)
+    elif isinstance(e, ast.Call) and not any(isinstance(a, ast.Starred) for a in e.args) \
+            and all(k.arg is not None for k in e.keywords):
+        eval_order(e.func, out)
+        for a in e.args:
+            eval_order(a, out)
+        for k in e.keywords:
+            eval_order(k.value, out)
+        out.append(e)
+    else:
+        out.append(e)
+
+
+class ExprInliner(object):
+    def __init__(self, fn, helpers, fname):
+        self.fn, self.helpers, self.fname = fn, helpers, fname
+        self.k = 0
+        self.used = set()
+        self.locals = set(x.arg for x in fn.args.args)
+        for n in ast.walk(fn):
+            if isinstance(n, ast.Name) and isinstance(n.ctx, ast.Store):
+                self.locals.add(n.id)
+
+    def run(self):
+        self.fn.body = self.block(self.fn.body)
+        return self.fn
+
+    def block(self, stmts):
+        out = []
+        for s in stmts:
+            if isinstance(s, (ast.If, ast.While, ast.For)):
+                s.body = self.block(s.body)
+                s.orelse = self.block(s.orelse)
+                out.append(s)
+                continue
+            pre = []
+            for _ in range(4):
+                if not self.one(s, pre):
+                    break
+            out.extend(pre)
+            out.append(s)
+        return out
+
+    def value_of(self, s):
+        if isinstance(s, ast.Expr) and isinstance(s.value, ast.Yield):
+            return s.value, 'value'
+        if isinstance(s, (ast.Assign, ast.Return, ast.Expr)):
+            return s, 'value'
+        return None, None
+
+    def one(self, s, pre):
+        holder, fld = self.value_of(s)
+        if holder is None or getattr(holder, fld) is None:
+            return False
+        order = []
+        eval_order(getattr(holder, fld), order)
+        for i, e in enumerate(order):
+            if isinstance(e, ast.Call) and isinstance(e.func, ast.Name) and e.func.id in self.helpers \
+                    and e.func.id not in self.locals:
+                before = [x for x in order[:i] if x is not e.func]
+                if not all(pure_leaf(x) for x in before):
+                    return False
+                repl = self.expand(e, pre)
+
+                class T(ast.NodeTransformer):
+                    def visit_Call(self, n):
+                        if n is e:
+                            return repl
+                        return self.generic_visit(n)
+                setattr(holder, fld, T().visit(getattr(holder, fld)))
+                return True
+            if not pure_leaf(e):
+                return False
+        return False
+
+    def expand(self, call, pre):
+        h = self.helpers[call.func.id]
+        who = '%s: call of %s' % (self.fn.name, h.name)
+        a = h.args
+        need(not a.vararg and not a.kwonlyargs and not a.kwarg and not getattr(a, 'posonlyargs', [])
+             and not a.defaults and not a.kw_defaults, '%s: unsupported parameter kinds' % who)
+        params = [x.arg for x in a.args]
+        need(len(set(params)) == len(params) and not call.keywords and len(call.args) == len(params)
+             and all(pure_leaf(x) for x in call.args), '%s: arguments must be positional names or constants' % who)
+        body = copy.deepcopy(strip_doc(h.body))
+        stores = set(n.id for st in body for n in ast.walk(st)
+                     if isinstance(n, ast.Name) and isinstance(n.ctx, ast.Store))
+        need(not stores & set(params), '%s: the helper rebinds a parameter' % who)
+        self.k += 1
+        ren = dict((l, '_h%d_%s' % (self.k, l)) for l in stores)
+        sub = dict(zip(params, call.args))
+        for st in body:
+            for n in ast.walk(st):
+                need(not isinstance(n, (ast.FunctionDef, ast.Lambda, ast.ClassDef, ast.Yield, ast.YieldFrom,
+                                        ast.Await, ast.Try, ast.With, ast.Import, ast.ImportFrom, ast.Global,
+                                        ast.Nonlocal, ast.Delete, ast.ListComp, ast.SetComp, ast.DictComp,
+                                        ast.GeneratorExp, ast.NamedExpr)),
+                     '%s: unsupported construct %s in the helper' % (who, type(n).__name__))
+                if isinstance(n, ast.Name) and n.id not in stores and n.id not in params:
+                    need(n.id not in self.locals, '%s: the helper uses the global %s, a local of the caller'
+                         % (who, n.id))
+
+        class T(ast.NodeTransformer):
+            def visit_Name(self, n):
+                if n.id in sub:
+                    return copy.deepcopy(sub[n.id])
+                if n.id in ren:
+                    return ast.Name(id=ren[n.id], ctx=n.ctx)
+                return n
+        body = [T().visit(st) for st in body]
+        self.used.add(h.name)
+        self.locals |= set(ren.values())
+        # def h(..): return E
+        if len(body) == 1 and isinstance(body[0], ast.Return) and body[0].value is not None:
+            return body[0].value
+        # def h(..): for T in I: if C: return E ; return D
+        if len(body) == 2 and isinstance(body[0], ast.For) and not body[0].orelse \
+                and isinstance(body[1], ast.Return) and body[1].value is not None and pure_leaf(body[1].value) \
+                and not isinstance(body[1].value, ast.Name) \
+                and len(body[0].body) == 1 and isinstance(body[0].body[0], ast.If) \
+                and not body[0].body[0].orelse and len(body[0].body[0].body) == 1 \
+                and isinstance(body[0].body[0].body[0], ast.Return) \
+                and body[0].body[0].body[0].value is not None:
+            r = '_h%d_result' % self.k
+            self.locals.add(r)
+            loop, inner = body[0], body[0].body[0]
+
+            def assign(v):
+                return ast.Assign(targets=[ast.Name(id=r, ctx=ast.Store())], value=v)
+            inner.body = [assign(inner.body[0].value), ast.Break()]
+            pre.append(assign(body[1].value))
+            pre.append(loop)
+            return ast.Name(id=r, ctx=ast.Load())
+        raise TranslationError('%s: the helper has neither of the two shapes that are inlined' % who)
+
+
+def module_helpers(tree, bindings, exclude):
+    out = {}
+    for st in tree.body:
+        if isinstance(st, ast.FunctionDef) and not st.decorator_list and st.name not in exclude \
+                and [h for n, h in bindings if n == st.name] == ['def']:
+            out[st.name] = st
+    return out
+
+
+def literal_consts(tree, bindings):
+    """module-level names bound exactly once, by a str / int / bool / None
+    literal or a tuple of str / int literals: immutable, so the name means the
+    literal wherever a function reads it without binding it locally"""
+    out = {}
+    for st in tree.body:
+        if isinstance(st, ast.Assign) and len(st.targets) == 1 and isinstance(st.targets[0], ast.Name):
+            nm = st.targets[0].id
+            v = st.value
+            if [h for n, h in bindings if n == nm] != ['assign'] or nm.startswith('__'):
+                continue
+            if is_const(v, str) or is_const(v, int) or is_const(v, bool) or is_none(v) \
+                    or (isinstance(v, ast.Tuple) and all(is_const(e, str) or is_const(e, int) for e in v.elts)):
+                out[nm] = v
+    return out
+
+
+def always_jumps(stmts):
+    if not stmts:
+        return False
+    s = stmts[-1]
+    if isinstance(s, (ast.Return, ast.Break, ast.Continue, ast.Raise)):
+        return True
+    return isinstance(s, ast.If) and always_jumps(s.body) and always_jumps(s.orelse)
+
+
+def flatten_else(stmts):
+    """if C: X (ends in return / break / continue)    ==   if C: X
+       else: Y                                              Y"""
+    out = []
+    for s in stmts:
+        for fld in ('body', 'orelse'):
+            if isinstance(getattr(s, fld, None), list):
+                setattr(s, fld, flatten_else(getattr(s, fld)))
+        if isinstance(s, ast.If) and s.orelse and always_jumps(s.body):
+            rest, s.orelse = s.orelse, []
+            out.append(s)
+            out.extend(rest)
+        else:
+            out.append(s)
+    return out
+
+
+class CallHoister(object):
+    """x = f(g(a), b)   ==   t = g(a); x = f(t, b)     for the functions the
+    glue calls (they are statements of the DSL): a call nested in an
+    expression gets a temporary of its own when everything the statement
+    evaluates before it is a name or a constant, so the order is kept."""
+
+    def __init__(self, fn, callees):
+        self.fn, self.callees, self.k = fn, callees, 0
+        self.locals = set(x.arg for x in fn.args.args) | set(
+            n.id for n in ast.walk(fn) if isinstance(n, ast.Name) and isinstance(n.ctx, ast.Store))
+
+    def run(self):
+        self.fn.body = self.block(self.fn.body)
+        return self.fn
+
+    def block(self, stmts):
+        out = []
+        for s in stmts:
+            if isinstance(s, (ast.If, ast.While, ast.For)):
+                s.body = self.block(s.body)
+                s.orelse = self.block(s.orelse)
+                out.append(s)
+                continue
+            out.extend(self.stmt(s, 0))
+        return out
+
+    def stmt(self, s, depth):
+        if depth > 8:
+            return [s]
+        if isinstance(s, ast.Expr) and isinstance(s.value, ast.Yield):
+            holder = s.value
+        elif isinstance(s, (ast.Assign, ast.Return, ast.Expr)):
+            holder = s
+        else:
+            return [s]
+        if holder.value is None:
+            return [s]
+        top = holder.value
+        order = []
+        eval_order(top, order)
+        for i, e in enumerate(order):
+            if isinstance(e, ast.Call) and isinstance(e.func, ast.Name) and e.func.id in self.callees \
+                    and e.func.id not in self.locals and not (e is top and isinstance(s, ast.Assign)):
+                funcs = [x.func for x in order if isinstance(x, ast.Call)]
+                before = [x for x in order[:i] if not any(x is f for f in funcs)]
+                if not all(pure_leaf(x) for x in before):
+                    return [s]
+                self.k += 1
+                tmp = '_t%d' % self.k
+                self.locals.add(tmp)
+
+                class T(ast.NodeTransformer):
+                    def visit_Call(self, n):
+                        if n is e:
+                            return ast.Name(id=tmp, ctx=ast.Load())
+                        return self.generic_visit(n)
+                holder.value = T().visit(top)
+                pre = ast.Assign(targets=[ast.Name(id=tmp, ctx=ast.Store())], value=e)
+                return self.stmt(pre, depth + 1) + self.stmt(s, depth + 1)
+            if not pure_leaf(e) and not (isinstance(e, ast.Call) and e is top):
+                return [s]
+        return [s]
+
+
+def prepared(fn, tree, bindings, exclude, fname, callees=()):
+    """-> (normal form of fn (a copy), names of the helpers inlined into it):
+    helper calls inlined, literal module constants inlined, no else after a
+    branch that always leaves"""
+    inl = ExprInliner(copy.deepcopy(fn), module_helpers(tree, bindings, set(exclude) | {fn.name}), fname)
+    new = inl.run()
+    consts = literal_consts(tree, bindings)
+    local = set(x.arg for x in new.args.args) | set(
+        n.id for n in ast.walk(new) if isinstance(n, ast.Name) and isinstance(n.ctx, ast.Store))
+
+    class T(ast.NodeTransformer):
+        def visit_Name(self, n):
+            if isinstance(n.ctx, ast.Load) and n.id in consts and n.id not in local and n.id not in exclude:
+                return copy.deepcopy(consts[n.id])
+            return n
+    new.body = [T().visit(st) for st in new.body]
+    new.body = strip_doc(new.body)
+    new.body = flatten_else(new.body)
+    if callees:
+        new = CallHoister(new, set(callees)).run()
+    return ast.fix_missing_locations(new), inl.used
 
 
 # --------------------------------------------------------------------- driver
@@ -823,8 +1237,9 @@ def generate():
          'tokens.py: `tokenizers` is used in unexpected places: %s' % sorted(uses_of(tk, 'tokenizers').items()))
     need(set(uses_of(tk, 'next_token')) <= {'tokenize'}, 'tokens.py: next_token is used outside tokenize')
     tk_names = set(n for n, _ in tb)
-    next_token = the_def(tk, 'next_token', 'tokens.py')
-    tokenize = the_def(tk, 'tokenize', 'tokens.py')
+    tk_known = set(BUILTINS) | {'next_token', 'tokenize', 'token', 'tokenizers', 'TC', 'CC', 'Token'}
+    next_token, _ = prepared(the_def(tk, 'next_token', 'tokens.py'), tk, tb, tk_known, 'tokens.py')
+    tokenize, _ = prepared(the_def(tk, 'tokenize', 'tokens.py'), tk, tb, tk_known, 'tokens.py')
     need(not next_token.decorator_list, 'tokens.py: next_token is decorated')
     check_to_buffer_decorator(tokenize, 'tokens.py')
     nt_sig, tz_sig = Sig(next_token, 'next_token'), Sig(tokenize, 'tokenize')
@@ -841,12 +1256,15 @@ def generate():
         only_binding(cb, nm, 'from TexSoup.utils import %s' % nm, 'category.py')
     only_binding(cb, 'CATEGORY_CODES', 'assign', 'category.py')
     only_binding(cb, 'categorize', 'def', 'category.py')
-    need(uses_of(cg, 'CATEGORY_CODES') == {'<module>': ['Store'], 'categorize': ['Load']},
+    categorize0 = the_def(cg, 'categorize', 'category.py')
+    categorize, cat_helpers = prepared(categorize0, cg, cb, set(BUILTINS) | {'CATEGORY_CODES', 'CC', 'Token'}, 'category.py')
+    cc_uses = uses_of(cg, 'CATEGORY_CODES')
+    need(cc_uses.pop('<module>', None) == ['Store'] and set(cc_uses) <= {'categorize'} | cat_helpers
+         and all(set(v) == {'Load'} for v in cc_uses.values()),
          'category.py: CATEGORY_CODES is used in unexpected places')
     casg = [st for st in cg.body if isinstance(st, ast.Assign) and any(is_name(t, 'CATEGORY_CODES') for t in st.targets)]
     need(len(casg) == 1 and len(casg[0].targets) == 1 and isinstance(casg[0].value, ast.Dict),
          'category.py: CATEGORY_CODES is not one dict literal')      # its content: gen_tables.py
-    categorize = the_def(cg, 'categorize', 'category.py')
     check_to_buffer_decorator(categorize, 'category.py')
     need(len(Sig(categorize, 'categorize').names) == 1, 'category.py: parameters of categorize changed')
     cg_names = set(n for n, _ in cb)
@@ -862,7 +1280,9 @@ def generate():
         need(final_binding(xb, nm) == how, 'tex.py: %s is bound by %s' % (nm, final_binding(xb, nm)))
     need([h for n, h in xb if n == 'read'] == ['def'], 'tex.py: read bound more than once')
     tx_names = set(n for n, _ in xb)
-    read = the_def(tx, 'read', 'tex.py')
+    read, _ = prepared(the_def(tx, 'read', 'tex.py'), tx, xb,
+                       set(BUILTINS) | {'read', 'categorize', 'tokenize', 'read_tex', 'TexEnv', 'itertools'}, 'tex.py',
+                       callees=('categorize', 'tokenize', 'read_tex'))
     need(not read.decorator_list, 'tex.py: read is decorated')
     tex_sigs = {'categorize': ('F_categorize', Sig(categorize, 'categorize'), False),
                 'tokenize': ('F_tokenize', tz_sig, True),
@@ -876,7 +1296,8 @@ def generate():
     for nm, how in (('read', 'from TexSoup.tex import read'), ('TexNode', 'from TexSoup.data import TexNode'),
                     ('TexSoup', 'def')):
         only_binding(ib, nm, how, '__init__.py')
-    soup = the_def(it, 'TexSoup', '__init__.py')
+    soup, _ = prepared(the_def(it, 'TexSoup', '__init__.py'), it, ib,
+                       set(BUILTINS) | {'TexSoup', 'read', 'TexNode'}, '__init__.py', callees=('read',))
     need(not soup.decorator_list, '__init__.py: TexSoup is decorated')
     it_names = set(n for n, _ in ib)
     f_soup = Fun(soup, '__init__.py', False, False, {'read': ('F_read', Sig(read, 'read'), False)},
@@ -910,7 +1331,7 @@ def generate():
         w('  mkfd %s %s %s %d [%s] %d gen_%s_body.'
           % ('true' if f.cursor else 'false', 'true' if f.conv_in else 'false',
              'true' if f.gen else 'false', f.nparams, '; '.join(d[1] for d in f.defaults),
-             len(f.locals), name))
+             f.nlocals, name))
         w('')
     w('Definition gen_funs (f : fname) : option fundef :=')
     w('  match f with')
